@@ -443,7 +443,7 @@ func runC20(w *World, r *Report) {
 			okm := false
 			instrs(gcompile, func(in ssa.Instruction) {
 				ret, ok := in.(*ssa.Return)
-				if !ok || len(ret.Results) != 2 || isNilConst(ret.Results[1]) {
+				if !ok || len(ret.Results) != 2 || isNilConst(returnedValue(ret, 1)) {
 					return
 				}
 				seenConst := map[string]bool{}
@@ -2077,7 +2077,7 @@ func compileReentrancyFlag(w *World) *types.Var {
 		tested := false
 		instrs(gcompile, func(in ssa.Instruction) {
 			ret, ok := in.(*ssa.Return)
-			if !ok || len(ret.Results) != 2 || isNilConst(ret.Results[1]) {
+			if !ok || len(ret.Results) != 2 || isNilConst(returnedValue(ret, 1)) {
 				return
 			}
 			if hasGuard(ret.Block(), func(g guard) bool { return g.pol && isLoadOfField(g.cond, f) }) {
